@@ -142,7 +142,7 @@ func featureClass(s c07shapes.Shape, kind string) string {
 var embTag = regexp.MustCompile("emb\\{[^}]*(\\{[^}]*\\}[^}]*)*\\}`[^`]+`")
 
 func checkVector(c *vh.Check, s c07shapes.Shape, p *big.Int, fname string, vk valueKind) (witness.Witness, bool) {
-	key := func(x string) string { return fmt.Sprintf("c07:%s:%s:%s:%s:%s", featureClass(s, x), s.Name, fname, vk.name, x) }
+	key := func(x string) string { return fmt.Sprintf("c07:%s:{%s}:%s:%s:%s", featureClass(s, x), s.Desc, fname, vk.name, x) } // keyed by the shape itself, not by its number
 	det := map[string]any{"shape": s.Name, "fields": s.Desc, "field": fname, "value_type": vk.name}
 	asg := s.Assign(func(i int) any { return vk.mk(int64(101+i), p) })
 	var w witness.Witness
@@ -225,7 +225,7 @@ func checkShape(c *vh.Check, s c07shapes.Shape, p *big.Int, fname string, vk val
 	if !compile {
 		return
 	}
-	key := func(x string) string { return fmt.Sprintf("c07:%s:%s:%s:%s:%s", featureClass(s, x), s.Name, fname, vk.name, x) }
+	key := func(x string) string { return fmt.Sprintf("c07:%s:{%s}:%s:%s:%s", featureClass(s, x), s.Desc, fname, vk.name, x) } // keyed by the shape itself, not by its number
 	if s.NLeaves == 0 {
 		return // a circuit without any variable: nothing to bind
 	}
